@@ -45,7 +45,7 @@ class C19(core.Check):
                   "bodiless_response_completes (a response to HEAD or with status 1xx/204/304 is complete at the blank line whatever Content-Length it carries: entry with empty body, queue moves on), "
                   "refused_redirect_is_reported (a redirect from https to http puts nothing on the wire and yields exactly one errored entry whose history ends with that "
                   "redirect — behaviour of the tree after the F49 repair; refusal_witness shows it happens and the queue moves on).  one_entry_each is _partial: a response cut short after some body bytes never completes "
-                  "(truncated_response_sticks, recorded as C19-K1) and a bodiless response that announces chunked coding is waited for forever (chunked_bodiless_sticks, C19-K2).  closed_connection_yields_error_entries pins the repaired F51 behaviour. "
+                  "(truncated_response_sticks, recorded as C19-K1) ; chunked_bodiless_completes and redirected_head_completes pin the two defects found and repaired on the way (3095720, 041b28b).  closed_connection_yields_error_entries pins the repaired F51 behaviour. "
                   "The model is tied to clienting.py by a seeded differential run (entries, wire log, waited, queue length); the redirect status set is re-extracted by probing.")
     level_note = ("Trusted: Lean kernel + propext/Classical.choice/Quot.sound; message-level abstraction of the byte stream (response parsing is C13/C17's), "
                   "carried by the sampled correspondence under random delays and splits; the scripted connectors replace sockets only (open/wrap/handshake).")
@@ -58,7 +58,6 @@ class C19(core.Check):
                     "translator harness/extract/httpflow.py (redirect status set probed from Respondent.parseHead over every 3-digit code)",
                     "oracle: the scripted servers' own wire log and served-response log"]
     assumptions = ["responses are well-formed HTTP (malformed input is C16's); hosts are literal 127.0.0.1 (no DNS)",
-                   "a redirected HEAD is not generated (its hop's response is parsed as if the method were GET: Respondent.reinit() default)",
                    "the https->http refusal is observed as an errored entry for the redirect response with the history attached and no hop on the wire (tree after the F49 repair)"]
 
     def extract(self):
@@ -93,7 +92,12 @@ class C19(core.Check):
              [(8101, 0, [ok(b"one"), ok(b"entity-of-two"), ok(b"thr"), (304, None, b"cached-entity", 0, 0, [], False), ok(b"fiv")])], 0),
             (False, [(b"GET", b"/q0", b""), (b"DELETE", b"/q1", b""), (b"GET", b"/q2", b"")],
              [(8101, 0, [(204, None, b"xx", 0, 1, [9], False), (102, None, b"yyy", 3, 0, [], False), ok(b"z")])], 0),
-            (False, [(b"HEAD", b"/q0", b""), (b"GET", b"/q1", b"")], [(8101, 0, [ok(b"entity", 1), ok(b"never")])], 0),     # C19-K2 witness
+            (False, [(b"HEAD", b"/q0", b""), (b"GET", b"/q1", b"")], [(8101, 0, [ok(b"entity", 1), ok(b"two")])], 0),     # C19-K2 regression (fixed 3095720)
+            (False, [(b"GET", b"/q0", b""), (b"GET", b"/q1", b"")], [(8101, 0, [(304, None, b"ent", 1, 0, [], False), ok(b"two", 1)])], 0),
+            # redirected HEAD (fixed 041b28b): the hop's response carries the entity length and no body
+            (False, [(b"HEAD", b"/q0", b"", []), (b"GET", b"/q1", b"", [])],
+             [(8101, 0, [(302, (0, 8101, b"/r0"), b"", 0, 0, [], False), ok(b"entity"), ok(b"two")])], 0),
+            (False, [(b"HEAD", b"/q0", b"", [(b"a", b"1")])], [(8101, 0, [(307, (0, 8102, b"/r0?b=2"), b"x", 1, 0, [], False)]), (8102, 0, [ok(b"entity", 1, 2, (9,))])], 0),
         ]
 
     def exhaustive(self, tier):
@@ -130,7 +134,7 @@ class C19(core.Check):
             tls[ports[0]] = secure
             m = rng.choice([1, 2, 3, 3, 4, 6])
             reqs = []
-            heads = rng.random() < 0.3          # a queue with HEAD requests (then no redirects: a redirected HEAD is not modelled)
+            heads = rng.random() < 0.3          # a queue with HEAD requests
             qtext = lambda: "".join(rng.choice(["a", "b", "1", " ", "&", "=", "+", "é", "%", "x y"]) for _ in range(rng.choice([0, 1, 1, 2])))
             keys = ["name", "token", "page", "k 1", "a&b", ""]
             for k in range(m):
@@ -143,7 +147,7 @@ class C19(core.Check):
             rcount = [0]
             servers = []
             pclose = rng.choice([0.0, 0.0, 0.1, 0.3])
-            predir = 0.0 if heads else rng.choice([0.0, 0.15, 0.3, 0.6])
+            predir = rng.choice([0.0, 0.15, 0.3, 0.6])
             ptrunc = rng.choice([0.0, 0.0, 0.0, 0.05])
             pnobody = rng.choice([0.0, 0.1, 0.3])
             for p in ports:
@@ -291,7 +295,7 @@ class C19(core.Check):
                     bad.append("redirect-history")
             elif self._never(fmethod, final):
                 bad.append("entry-for-a-response-that-cannot-complete")
-            elif (final[3] == 3 and not bodiless) or (bodiless and final[3] == 1 and final[4]):
+            elif final[3] == 3 and not bodiless:
                 if not errored:         # a response the server cut short can only be reported as an error
                     bad.append("entry-for-truncated-response")
             else:
@@ -308,10 +312,9 @@ class C19(core.Check):
 
     @staticmethod
     def _never(method, served):
-        """a served response the client can never see the end of: cut short after some body bytes (C19-K1), or bodiless by rule but
-        announcing chunked coding (C19-K2)"""
+        """a served response the client can never see the end of: cut short after some body bytes (C19-K1)"""
         if hf.c19_bodiless(method, served[0]):
-            return "C19-K2" if served[3] == 1 and not served[4] else None
+            return None
         return "C19-K1" if served[3] == 3 and len(served[2]) > 0 else None
 
     def _stuck_on(self, case, obs):
